@@ -69,7 +69,7 @@ func (w *World) SpendV1(cs consensus.State, coins []Coin, nOut int, fee types.Cu
 		txn.ArbitraryData = [][]byte{make([]byte, arb)}
 	}
 	w.Net.SignV1(cs, &txn)
-	w.TxEra[txn.ID()] = w.Era(cs.Index.Height)
+	w.TxEra[DigestV1([]types.Transaction{txn})] = w.Era(cs.Index.Height)
 	return txn
 }
 
@@ -86,7 +86,6 @@ func (w *World) SpendV2(cs consensus.State, coins []Coin, nOut int, fee types.Cu
 		txn.ArbitraryData = make([]byte, arb)
 	}
 	w.Net.SignV2(cs, &txn)
-	w.TxEra[txn.ID()] = w.Era(cs.Index.Height)
 	return txn
 }
 
